@@ -52,6 +52,9 @@ func Run(target, scope, newDir string, fSys filesys.FileSystem) (string, error) 
 	}
 	dst := args.NewDir.Join(toDst)
 	if err = fSys.MkdirAll(dst); err != nil {
+		if errCleanup := fSys.RemoveAll(args.NewDir.String()); errCleanup != nil {
+			log.Printf("unable to clean localize destination: %s", errCleanup)
+		}
 		return "", errors.WrapPrefixf(err, "unable to create directory in localize destination")
 	}
 
